@@ -149,7 +149,7 @@ Inductive shape (c : call) (s s' : state) : Prop :=
     s_now s' = s_now s ->
     delegate (s_now s) auths (s_v s) acc d = Ok (s_v s') ->
     (forall a, balance_of s' a = balance_of s a) ->
-    In acc (call_addrs c) ->
+    c = Delegate acc d ->
     shape c s s'.
 
 Lemma shape_of_same c s s' : same_core s s' -> shape c s s'.
@@ -188,9 +188,9 @@ Proof.
     apply shape_of_same. eapply same_core_trans; [exact H0|]. apply moved_zero_same with (from := from) (to := to). exact M.
 Qed.
 
-Lemma delegate_shape c s auths acc d v :
-  delegate (s_now s) auths (s_v s) acc d = Ok v -> In acc (call_addrs c) -> shape c s (with_v s v).
-Proof. intros H Hin. apply (sh_delegate c s _ auths acc d); auto. Qed.
+Lemma delegate_shape s auths acc d v :
+  delegate (s_now s) auths (s_v s) acc d = Ok v -> shape (Delegate acc d) s (with_v s v).
+Proof. intros H. apply (sh_delegate _ s _ auths acc d); auto. Qed.
 
 Lemma advance_shape c s n : (0 <=? n) && in_u32 (s_now s + n) = true -> shape c s (with_now s (s_now s + n)).
 Proof. intros H. apply andb_prop in H. destruct H as [H _]. apply Z.leb_le in H. apply sh_same; cbn [s_now s_v with_now]; auto. lia. Qed.
@@ -211,7 +211,7 @@ Proof.
   - inv_bind H. inv_guards. eapply f_hook_shape; [eapply spend_allowance_same; eauto| | |]; eauto.
     cbn [call_addrs]. intros a [Ha|Ha]; inversion Ha; [right; left|right; right; left]; reflexivity.
   - inv_bind H. inv_guards. apply shape_of_same. eapply set_allowance_same; eauto.
-  - inv_bind H. inv_guards. eapply delegate_shape; [exact Hx|]. left; reflexivity.
+  - inv_bind H. inv_guards. eapply delegate_shape; exact Hx.
 Qed.
 
 Lemma n_hook_shape c s0 s s1 s2 from to id :
@@ -241,7 +241,7 @@ Proof.
   - inv_bind H. inv_guards. eapply n_hook_shape; eauto using same_core_refl.
     cbn [call_addrs]. intros a [Ha|Ha]; inversion Ha; [right; left|right; right; left]; reflexivity.
   - inv_bind H. inv_guards. apply shape_of_same. eapply n_approve_same; eauto.
-  - inv_bind H. inv_guards. eapply delegate_shape; [exact Hx|]. left; reflexivity.
+  - inv_bind H. inv_guards. eapply delegate_shape; exact Hx.
 Qed.
 
 Theorem step_shape h s auths c : shape c s (fst (step h s auths c)).
@@ -360,7 +360,7 @@ Proof.
     + apply T8. exact I9.
   - (* delegate *)
     destruct (delegate_spec _ _ _ _ _ _ I1 Hd) as [_ [D2 [D3 [D4 [D5 [D6 [D7a D7b]]]]]]].
-    apply Hin in Hacc.
+    assert (HaccU : In acc U) by (apply Hin; rewrite Hacc; left; reflexivity). clear Hacc. rename HaccU into Hacc.
     constructor; rewrite ?Hn.
     + exact I1.
     + intros a. eapply tl_wf_ext; [apply D7a|apply I2].
